@@ -291,8 +291,11 @@ pub fn run(ctx: &Ctx) -> Outcome {
     let mut total = explore::Stats { exhaustive: true, ..Default::default() };
     let mut per = vec![];
     for s in scenarios(ctx.tier == core::Tier::Thorough) {
+        // the full-queue variants keep every event of the busy episode in the state (they sit in
+        // queues), so their state space grows much faster with depth than the others'
+        let depth = if s.fullqueue { ctx.tier.pick(6, 8) } else { depth };
         let st = explore::bfs(ctx, &s, depth, ctx.tier.pick(50, 20));
-        per.push(json!({"scenario": s.name(), "states": st.states, "transitions": st.transitions, "depth_completed": st.depth_completed, "frontier": st.frontier_sizes}));
+        per.push(json!({"scenario": s.name(), "depth": depth, "states": st.states, "transitions": st.transitions, "depth_completed": st.depth_completed, "frontier": st.frontier_sizes}));
         total.merge(&st);
     }
     // every single-bit corruption of the info-hash, as the first thing received, both directions
@@ -365,7 +368,7 @@ pub fn run(ctx: &Ctx) -> Outcome {
     explore::stats_outcome(&total, &mut o);
     o.set("scenarios", Value::Array(per));
     o.set("single_bit_hash_corruptions", json!(bit_runs));
-    o.set("rule", json!(format!("BFS to depth {} over the alphabet [HS:good, HS:hash0, HS:hash159, HS:otherid (outgoing only), HS:pstr, HS:pstrlen, HS:trunc, {}] on an outgoing and an incoming connection, manager owning both pieces; -crowded variants: ten manager-only peers hold all regular upload slots, every connection has reported rates, and R (one real choke rotation) may happen at any point of the handshake phase; -fullqueue variants: Z (the manager becomes busy and 64 statistics reports of the rest of the swarm fill its command queue to the last slot) and W (it comes back and works the queue off) around the handshake events, so the task's last words to the manager find no free slot; -while-downloading variants: the client owns nothing, a second connection D (honest seeder) completes pieces at any point (event Dp, so the manager announces them to every connection task) while the connection under test sends good / corrupted handshakes, KeepAlive, Interested, Have, Unchoke, Choke; a state is the canonical snapshot of manager + connection task + files + monitor; histories end when the connection task ended. Plus all 160 single-bit corruptions of the info-hash as first message, both directions. Plus three full-session scenarios borrowed from C02 (identity-*): a re-announce lists a connected address followed by a new one, whose peer presents its own announced id (must stay connected) or the id of the connected peer (must be dropped); a host re-listed under a new id. Plus four exchanges with the real session's accept path over loopback TCP (real clock): a dial-in peer stays silent / sends a handshake for another torrent / a good handshake / a Bitfield before any handshake.", depth, PLAIN.join(", "))));
+    o.set("rule", json!(format!("BFS to depth {} (full-queue variants: 6, thorough 8) over the alphabet [HS:good, HS:hash0, HS:hash159, HS:otherid (outgoing only), HS:pstr, HS:pstrlen, HS:trunc, {}] on an outgoing and an incoming connection, manager owning both pieces; -crowded variants: ten manager-only peers hold all regular upload slots, every connection has reported rates, and R (one real choke rotation) may happen at any point of the handshake phase; -fullqueue variants: Z (the manager becomes busy and 64 statistics reports of the rest of the swarm fill its command queue to the last slot) and W (it comes back and works the queue off) around the handshake events, so the task's last words to the manager find no free slot; -while-downloading variants: the client owns nothing, a second connection D (honest seeder) completes pieces at any point (event Dp, so the manager announces them to every connection task) while the connection under test sends good / corrupted handshakes, KeepAlive, Interested, Have, Unchoke, Choke; a state is the canonical snapshot of manager + connection task + files + monitor; histories end when the connection task ended. Plus all 160 single-bit corruptions of the info-hash as first message, both directions. Plus three full-session scenarios borrowed from C02 (identity-*): a re-announce lists a connected address followed by a new one, whose peer presents its own announced id (must stay connected) or the id of the connected peer (must be dropped); a host re-listed under a new id. Plus four exchanges with the real session's accept path over loopback TCP (real clock): a dial-in peer stays silent / sends a handshake for another torrent / a good handshake / a Bitfield before any handshake.", depth, PLAIN.join(", "))));
     o.assume("a truncated handshake followed by other bytes is undecodable input (C06's subject); after it nothing is demanded here except (2) and (4)");
     o
 }
